@@ -13,7 +13,7 @@ import (
 func init() { register("C16", true, runC16) }
 
 func runC16(c *Check) {
-	c.Explanation = "Decides the barrier, slot, error-routing and tiling clauses of C16 for every completion order and every subset of failing sources: each goroutine started by the fetch code begins with a deferred wg.Done on the WaitGroup whose Add count equals the number of goroutines launched; wg.Wait dominates every read of what the goroutines write; each goroutine writes only its own slot (its &sources[i], or variables no other goroutine touches) (R1-R3); after the barrier results are collected by a forward index loop, a source's error only reaches PrintErr and never a return value, and 'no profile' is decided from counts (R4, R5); consecutive chunks sources[start:end] tile [0,len) exactly (same step for start and end, end clamped to len) (R6). Also: profiles handed to combineProfiles across chunks are nil-tested on the path (R7) and grabProfile validates every profile it returns without error (R8). Also: no package-level lock is held across per-source work (R9); files created in the fetch tree are created exclusively (R10); the collecting loop looks at every source (R5). Not decided: what is fetched and merged, HTTP/file behaviour, Merge errors."
+	c.Explanation = "Decides the barrier, slot, error-routing and tiling clauses of C16 for every completion order and every subset of failing sources: each goroutine started by the fetch code begins with a deferred wg.Done on the WaitGroup whose Add count equals the number of goroutines launched; wg.Wait dominates every read of what the goroutines write; each goroutine writes only its own slot (its &sources[i], or variables no other goroutine touches) (R1-R3); after the barrier results are collected by a forward index loop, a source's error only reaches PrintErr and never a return value, and 'no profile' is decided from counts (R4, R5); consecutive chunks sources[start:end] tile [0,len) exactly (same step for start and end, end clamped to len) (R6). Also: profiles handed to combineProfiles across chunks are nil-tested on the path (R7) and grabProfile validates every profile it returns without error (R8). Also: no package-level lock is held across per-source work (R9); files created in the fetch tree are created exclusively (R10); the collecting loop looks at every source (R5). Round-I additions: combineProfiles updates only maps it made; nothing is read through a result slot after it was cleared. Not decided: what is fetched and merged, HTTP/file behaviour, Merge errors."
 	c.goroutineRules("C16", "internal/driver", []string{"grabSourcesAndBases", "concurrentGrab"})
 	c.collectRules()
 	c.chunkTiling()
